@@ -52,6 +52,8 @@ type Solver struct {
 	euf       bool     // strings as an uninterpreted sort (equality, length, isuuid only)
 	scList    []*Term  // string constants declared in the current scope (euf mode)
 	scMarks   []int
+	genStrs   []*Term // generated-UUID variables defined on this path (fresh: distinct from every other string)
+	allStrs   []*Term // every string variable / constant defined on this path
 	inPath    bool
 	cycles    int
 }
@@ -127,6 +129,8 @@ func (s *Solver) preamble() {
 	}
 	s.scList = s.scList[:0]
 	s.scMarks = s.scMarks[:0]
+	s.genStrs = s.genStrs[:0]
+	s.allStrs = s.allStrs[:0]
 	s.defined = make(map[int]bool)
 	s.journal = s.journal[:0]
 	s.marks = s.marks[:0]
@@ -170,6 +174,25 @@ func (s *Solver) ensureFresh() {
 	s.marks = s.marks[:0]
 	s.scList = s.scList[:0]
 	s.scMarks = s.scMarks[:0]
+	s.genStrs = s.genStrs[:0]
+	s.allStrs = s.allStrs[:0]
+}
+
+// fresh emits the freshness axioms of generated UUIDs: a generated value differs from every other string term.
+func (s *Solver) fresh(t *Term, sb *strings.Builder) {
+	isGen := t.op == "var" && strings.HasSuffix(t.name, "_genuuid")
+	for _, g := range s.genStrs {
+		fmt.Fprintf(sb, "(assert (not (= %s %s)))\n", s.ref(g), s.ref(t))
+	}
+	if isGen {
+		for _, o := range s.allStrs {
+			if !(o.op == "var" && strings.HasSuffix(o.name, "_genuuid")) {
+				fmt.Fprintf(sb, "(assert (not (= %s %s)))\n", s.ref(t), s.ref(o))
+			}
+		}
+		s.genStrs = append(s.genStrs, t)
+	}
+	s.allStrs = append(s.allStrs, t)
 }
 
 func (s *Solver) push() {
@@ -246,6 +269,12 @@ func (s *Solver) define(t *Term, sb *strings.Builder) {
 	}
 	switch t.op {
 	case "const":
+		if t.sort == SStr && !s.euf {
+			s.fresh(t, sb)
+			s.defined[t.id] = true
+			s.journal = append(s.journal, t.id)
+			return
+		}
 		if !s.euf || t.sort != SStr || t.cv.(string) == "" {
 			return
 		}
@@ -263,10 +292,14 @@ func (s *Solver) define(t *Term, sb *strings.Builder) {
 			}
 		}
 		s.scList = append(s.scList, t)
+		s.fresh(t, sb)
 	case "var":
 		fmt.Fprintf(sb, "(declare-const %s %s)\n", t.name, s.sortName(t.sort))
 		if s.euf && t.sort == SStr {
 			fmt.Fprintf(sb, "(assert (>= (slen %s) 0))\n(assert (=> (= (slen %s) 0) (= %s sc_empty)))\n", t.name, t.name, t.name)
+		}
+		if t.sort == SStr {
+			s.fresh(t, sb)
 		}
 	default:
 		for _, a := range t.args {
